@@ -17,7 +17,7 @@ TECHNIQUE = ('model-based testing of set_value/evaluate histories: '
              'operation sequences, compared after every observation with a '
              'from-scratch compile (differential oracle); shrunk failing '
              'histories are replayed without Hypothesis'
-             "; alias writes (0/FALSE, 1/TRUE, blank/'', letter case), list/tuple/generator address forms")
+             "; alias writes (0/FALSE, 1/TRUE, blank/'', letter case), list/tuple/generator address forms; all short histories on fixed workbooks incl. error-valued range members and range-operator forms in every configuration")
 LEVEL_TEXT = ('Exploration: thousands of generated workbooks (ranges over '
               'formula cells, nested ranges, names, unbounded row/column '
               'references, CSE arrays, two sheets) x five ways of obtaining '
